@@ -177,7 +177,11 @@ Shape7 == [doc |-> <<"arr", <<<<"arr", <<U(1)>>>>, <<"arr", <<U(2)>>>>, U(7)>>>>
            root |-> [k |-> "arr", ops |-> <<[op |-> "arr", ops |-> <<[op |-> "elem", t |-> "i32"]>>], [op |-> "arr", ops |-> <<[op |-> "elem", t |-> "i32"]>>],
                                            [op |-> "elem", t |-> "i32"]>>],
            paths |-> {<<1>>, <<2>>, <<2, 1>>}]
-Shapes == {Shape1, Shape2, Shape4, Shape5, Shape6, Shape7} \cup (IF Arch = "msgpack" THEN {Shape3} ELSE {})
+\* shape 8: a registered enum member (loaded from its name) and a trailing scalar
+Shape8 == [doc |-> <<"map", <<<<S(<<101>>), S(<<71, 114, 101, 101, 110>>)>>, <<S(<<110>>), U(5)>>>>>>,
+           root |-> [k |-> "obj", ops |-> <<[op |-> "req", ks |-> <<101>>, t |-> "enum_color"], [op |-> "req", ks |-> <<110>>, t |-> "i32"]>>],
+           paths |-> {<<1>>, <<2>>}]
+Shapes == {Shape1, Shape2, Shape4, Shape5, Shape6, Shape7, Shape8} \cup (IF Arch = "msgpack" THEN {Shape3} ELSE {})
 
 InitSkip == /\ \E sh \in Shapes : doc = sh.doc /\ root = sh.root /\ aux = [clean |-> sh.doc, todo |-> sh.paths, done |-> {}]
             /\ w \in Widths
